@@ -7,7 +7,7 @@ SRC=/tmp/mutout/$ID
 WT=/tmp/confirm/$ID-$K
 export CARGO_TARGET_DIR=/tmp/confirm/target CARGO_NET_OFFLINE=true
 mkdir -p /tmp/confirm
-dir=$(grep -oE '(sqlite|server|core)/tests' $SRC/$K.md | sort | uniq -c | sort -rn | head -1 | awk '{print $2}')
+dir=${DEMO_DIR:-}; [ -z "$dir" ] && dir=$(grep -oE '(sqlite|server|core)/tests' $SRC/$K.md | sort | uniq -c | sort -rn | head -1 | awk '{print $2}')
 demo=$(ls $SRC | grep "^${K}_demo" | head -1)
 [ -n "$dir" ] && [ -n "$demo" ] || { echo "$ID $K: cannot determine demo placement"; exit 2; }
 git -C /repo worktree add --detach -f $WT HEAD >/dev/null 2>&1 || { echo "worktree failed"; exit 2; }
